@@ -28,7 +28,9 @@ static Paths run_offset(const Paths& in, const Params& q, double delta) {
 }
 
 // expected stroke of one path, appended to the inner set I and the outer set U
-static void add_pieces(const Path& p, const Params& q, ld delta, PieceSet& I, PieceSet& U) {
+static void add_pieces(const Path& p_in, const Params& q, ld delta, PieceSet& I, PieceSet& U) {
+  // a repeated vertex does not change the polyline as a point set: the expected stroke is that of the path without it
+  Path p; for (auto& v : p_in) if (p.empty() || !(p.back().x == v.x && p.back().y == v.y)) p.push_back(v);
   ld k = q.jt == JT_ROUND ? 1.0L : q.jt == JT_MITER ? std::max((ld)q.ml, sqrtl(2.0L)) : sqrtl(2.0L);
   size_t n = p.size();
   if (n == 0) return;
@@ -153,6 +155,9 @@ int main(int argc, char** argv) {
   if (mix == 1) {
     for (auto& l : lines) { if (!rep.mine(idx++)) continue; if (rep.out_of_time()) { done = false; break; }
       for (auto& q : full) { if (!joined_ok(l, q)) { rep.add("skipped_angle_filter_joined"); continue; } check_case(rep, Paths{l}, q, S); }
+      // the same polyline with one vertex given twice in a row (first, inner or last position; a single point given twice)
+      for (size_t di = 0; di < l.size(); ++di) { Path ld2 = l; ld2.insert(ld2.begin() + di, l[di]);
+        for (auto& q : brief) { if (q.groups != 1) continue; if (!joined_ok(l, q)) { rep.add("skipped_angle_filter_joined"); continue; } check_case(rep, Paths{ld2}, q, S); rep.add("cases_with_repeated_vertex"); } }
       rep.sample("P=" + pstr(Paths{l})); }
   } else {
     // mixtures of `mix` paths, the later ones translated far away (no interaction)
